@@ -211,11 +211,25 @@ Definition bm_neg_lookup (ch : Z) : res (option Z) :=
     end
   else Ok None.                                                                  (* :668-670 / :707-710 *)
 
+(* the same before /repo d3ed698: "chTest < 0xffff" - U+FFFF, which newBmPrefix files in row 255, got the
+   default advance.  Only used by the negative example Properties/C03.v [C03_bm_scan_before_repair_skips]. *)
+Definition bm_neg_lookup_old (ch : Z) : res (option Z) :=
+  if ch <? 128 then do v <- bm_at (bm_negascii t) ch ; Ok (Some v)
+  else if (ch <? 65535) && bm_has_uni t then
+    match bm_uni t (Z.shiftr ch 8) with
+    | Some (x :: row) => do v <- bm_at (x :: row) (Z.land ch 255) ; Ok (Some v)
+    | _ => Ok None
+    end
+  else Ok None.
+
 Inductive bmstep := BmRet (r : Z) | BmAdv (test' : Z).
 
 Definition bm_startmatch : Z := if bm_rtl t then 0 else zlen (bm_pattern t) - 1.
 Definition bm_endmatch : Z := if bm_rtl t then zlen (bm_pattern t) - 1 else 0.
 Definition bm_defadv : Z := if bm_rtl t then - zlen (bm_pattern t) else zlen (bm_pattern t).
+
+Section Loop.
+Variable lookup : Z -> res (option Z).   (* [bm_neg_lookup] *)
 
 (* :677-723 *)
 Fixpoint bm_scan_match (fuel : nat) (test test2 mtch : Z) : res bmstep :=
@@ -232,7 +246,7 @@ Fixpoint bm_scan_match (fuel : nat) (test test2 mtch : Z) : res bmstep :=
         do pm <- bm_at (bm_pattern t) mtch' ;
         if negb (chTest =? pm) then                                              (* :695 *)
           do advance <- bm_at (bm_positive t) mtch' ;                            (* :696 *)
-          do lk <- bm_neg_lookup chTest ;
+          do lk <- lookup chTest ;
           match lk with
           | None => Ok (BmAdv (test + advance))                                  (* :704-705, :708-709 *)
           | Some v =>
@@ -254,7 +268,7 @@ Fixpoint bm_scan_loop (chMatch beglimit endlimit : Z) (fuel : nat) (test : Z) : 
         do c <- bm_at text test ;                                                (* :652 *)
         let chTest := bm_fold (bm_ci t) c in                                     (* :654-656 *)
         if negb (chTest =? chMatch) then                                         (* :658 *)
-          do lk <- bm_neg_lookup chTest ;
+          do lk <- lookup chTest ;
           let advance := match lk with Some v => v | None => bm_defadv end in
           bm_scan_loop chMatch beglimit endlimit f (test + advance)              (* :672 *)
         else
@@ -265,10 +279,14 @@ Fixpoint bm_scan_loop (chMatch beglimit endlimit : Z) (fuel : nat) (test : Z) : 
           end
   end.
 
-Definition bm_scan (fuel : nat) (index beglimit endlimit : Z) : res Z :=
+Definition bm_scan_gen (fuel : nat) (index beglimit endlimit : Z) : res Z :=
   let test0 := if bm_rtl t then index + bm_defadv else index + bm_defadv - 1 in  (* :631-643 *)
   do chMatch <- bm_at (bm_pattern t) bm_startmatch ;                             (* :645 *)
   bm_scan_loop chMatch beglimit endlimit fuel test0.
+
+End Loop.
+
+Definition bm_scan : nat -> Z -> Z -> Z -> res Z := bm_scan_gen bm_neg_lookup.
 
 (* :750-765: for i := 0; i < len(b.pattern); i++ { if fold(text[index+i]) != b.pattern[i] { return false } } *)
 Fixpoint bm_match_loop (pat : list Z) (i : Z) : res bool :=
